@@ -7,6 +7,7 @@
 
 mod codecs;
 mod corpus;
+mod engine;
 mod guard;
 mod ints;
 mod shape;
@@ -152,10 +153,9 @@ fn log2(n: usize) -> u32 {
 
 // ---- byte-string harnesses -----------------------------------------------------------------------
 
-fn bytes_case(hid: u64, i: u64, items: &[Item], confs: &[Conf]) -> Outcome {
+fn bytes_case(i: u64, items: &[Item], confs: &[Conf]) -> Outcome {
     let it = &items[(i / confs.len() as u64) as usize];
     let conf = confs[(i % confs.len() as u64) as usize];
-    let _g = guard::enter(hid, i);
     let r = conf.run(&it.bytes);
     let out = match r {
         Ok(seen) => {
@@ -214,15 +214,14 @@ fn bytes_harness(ctx: &mut Ctx, name: &str, items: &[Item], confs: &[Conf]) {
     if skip(name) {
         return;
     }
-    let hid = guard::harness_id(name);
     let n = items.len() as u64 * confs.len() as u64;
     let describe = |i: u64| {
         let it = &items[(i / confs.len() as u64) as usize];
         let conf = confs[(i % confs.len() as u64) as usize];
         format!("codec={} flags={} x={}", conf.codec(), conf.flags(), it.expr)
     };
-    let cases = ctx.sweep(name, n, describe, |i| bytes_case(hid, i, items, confs));
-    ctx.add_distinct(cases, take_states());
+    let what = format!("{} inputs x {} configurations", items.len(), confs.len());
+    engine::sweep_min(ctx, name, n, describe, take_states, &what, |i| bytes_case(i, items, confs));
 }
 
 fn skip(name: &str) -> bool {
@@ -312,14 +311,15 @@ fn fqz_harness(ctx: &mut Ctx, name: &str, cases: &[FqzCase]) {
     if skip(name) {
         return;
     }
-    let hid = guard::harness_id(name);
-    let n = ctx.sweep(
+    engine::sweep_min(
+        ctx,
         name,
         cases.len() as u64,
         |i| format!("fqzcomp {}", cases[i as usize].expr),
+        take_states,
+        "quality strings x compositions of the length into <= 4 records",
         |i| {
             let c = &cases[i as usize];
-            let _g = guard::enter(hid, i);
             match codecs::fqzcomp(&c.lens, &c.quals) {
                 Ok(seen) => {
                     let fixed = c.lens.windows(2).all(|w| w[0] == w[1]);
@@ -352,7 +352,6 @@ fn fqz_harness(ctx: &mut Ctx, name: &str, cases: &[FqzCase]) {
             }
         },
     );
-    ctx.add_distinct(n, take_states());
 }
 
 // ---- name tokenizer ------------------------------------------------------------------------------
@@ -383,7 +382,6 @@ fn names_harness(ctx: &mut Ctx, name: &str, alpha: &[Vec<u8>], max_names: usize)
     if skip(name) {
         return;
     }
-    let hid = guard::harness_id(name);
     let k = alpha.len() as u64;
     // index -> list: lists of length 0..=max_names, shortest first
     let mut offsets = vec![0u64];
@@ -414,13 +412,15 @@ fn names_harness(ctx: &mut Ctx, name: &str, alpha: &[Vec<u8>], max_names: usize)
             .collect();
         format!("[{}]", parts.join(", "))
     };
-    let n = ctx.sweep(
+    engine::sweep_min(
+        ctx,
         name,
         total,
         |i| format!("names {}", show(&decode(i))),
+        take_states,
+        &format!("all lists of <= {max_names} names over a {}-name alphabet", alpha.len()),
         |i| {
             let list = decode(i);
-            let _g = guard::enter(hid, i);
             match codecs::name_tokenizer(&list) {
                 Ok(seen) => {
                     state((list.len(), log2(seen.encoded_len), shape::names(&list)));
@@ -449,7 +449,6 @@ fn names_harness(ctx: &mut Ctx, name: &str, alpha: &[Vec<u8>], max_names: usize)
             }
         },
     );
-    ctx.add_distinct(n, take_states());
 }
 
 // ---- main ----------------------------------------------------------------------------------------
